@@ -179,6 +179,29 @@ CHECKS = {
                 "One known finding (absent tail position -1 used in a distance near the chromosome start) is excluded by its input class.",
         "design": "3 C11",
     },
+    "C04": {
+        "text": "Bounded symbolic verification of novel-model labelling: the real construct_fl_isoforms runs on a directly constructed state with "
+                "one full-length path of <=3 introns whose annotation membership (every subset), owning reference gene, border dinucleotides, "
+                "polyA/polyT terminal vertices and report level are chosen by the solver and whose read count is a symbolic integer; for every "
+                "emitted model: .nic iff all introns annotated, never the chain of a reference transcript present in the graph, novel_gene_* gene "
+                "without a reference gene, definite strand under only_canonical/only_stranded, minimal read support, >=1 supporting read listed, "
+                "introns = path introns, and supporting-read records only for reported models. detect_similar_isoforms (real assigner underneath) "
+                "on two novel models with one intron chain and symbolic ends: at least one is marked redundant.",
+        "note": "Trusted: z3, symx proxies, stub assigner/profile constructor inside construct_fl_isoforms. Intron clustering and graph "
+                "simplification (intron_graph.py) are NOT encoded: 'every intron occurs in a read' is shown only relative to the path storage. "
+                "One known finding (same chain, staggered ends: both kept) is excluded by its input class.",
+        "design": "3 C04",
+    },
+    "C10": {
+        "text": "Non-interference by one inductive step: each class-level mutable attribute found by an AST scan of the current src/ "
+                "(detected_known_isoforms, duplicate_counter, id counters) is given arbitrary prior contents chosen by the solver; the real "
+                "construct_models_in_parallel (I/O replaced by fakes) is shown to start every chromosome run from a clean 'already reported' set, "
+                "the real construct_fl_isoforms reports a reproduced reference isoform from that state and only once per run, resolution verdicts "
+                "are independent of the prior duplicate counter and identifiers stay distinct for every symbolic prior counter value.",
+        "note": "Trusted: z3, symx proxies, fakes for Fasta/aggregator/loader. The combined_* tables (pandas), YAML/list parsing and process pools "
+                "are outside the claim; attributes without a harness are listed in the evidence.",
+        "design": "3 C10",
+    },
 }
 
 NOT_BUILT = "check not built yet (build in progress, see DESIGN.md section 5); no claim is made"
